@@ -1813,7 +1813,7 @@ Lemma reports_of_reflects t sers sds rk :
   Forall2 reflects sers sds ->
   Forall (fun sd => sd_is_xy sd = rk_xy rk /\ data_tags sd = rk_tags rk) sds ->
   is_xy_plot t = rk_xy rk ->
-  map ser_name sers = map (fun sd => (sd_name sd)) sds /\
+  map ser_name sers = map sd_name sds /\
   map (ser_values_raw t) sers = map sd_values sds /\
   (rk_xy rk = true -> map (ser_cache kid_xval) sers = map sd_xvalues sds) /\
   (rk = RBub -> map (ser_cache kid_bub) sers = map sd_sizes sds).
@@ -1858,7 +1858,7 @@ Proof.
   destruct (reports_of_reflects ptag sers (kept ct sds) rk HR (kept_forall ct _ _ HF) Ht) as [R1 [R2 [R3 _]]].
   unfold chart_names, chart_xvalues. rewrite (one_plot_values ptag 0 sers (or_intror I) Ha), Ha.
   split; [|split; [|split; [exact Hu|]]].
-  - rewrite R1, <- Hn, map_map, <- kept_map. reflexivity.
+  - rewrite R1, <- Hn, <- kept_map. reflexivity.
   - rewrite R2, <- Hv, <- kept_map. reflexivity.
   - destruct d as [f fmt l|l|l]; [exact I| |]; rewrite <- Hx, kept_map.
     + destruct rk; [|apply R3; reflexivity|apply R3; reflexivity].
@@ -2011,7 +2011,7 @@ Proof.
   pose proof (zip_rw_reflects sc (area_sers_of ps) sds Hl) as HR. rewrite <- Harea in HR.
   destruct (reports_of_reflects (p_tag p0) _ _ rk HR HF Hflag) as [R1 [R2 [R3 R4]]].
   split; [rewrite (Forall2_length _ _ _ HR); exact Hlen|].
-  split; [unfold chart_names; rewrite R1, <- Hnm, map_map; reflexivity|].
+  split; [unfold chart_names; rewrite R1, <- Hnm; reflexivity|].
   split.
   { unfold chart_values. rewrite (chart_values_flag (ch_plots c') (p_tag p0) Hall).
     fold (area_sers c'). now rewrite R2. }
@@ -2316,8 +2316,8 @@ Proof. do 5 eexists. split; [vm_compute; reflexivity|]. repeat split. Qed.
 
 (** The number formats are kept as given (line ends normalised), whatever they contain. *)
 Lemma number_format_kept :
-  (forall fmt vals, ca_fmt (num_cache fmt vals) = Some (fmt)) /\
-  (forall b f fmt cx, write_cat b f (Some fmt) = Ok cx -> cx_kind cx = 1%N -> cx_fmt cx = Some (fmt)).
+  (forall fmt vals, ca_fmt (num_cache fmt vals) = Some fmt) /\
+  (forall b f fmt cx, write_cat b f (Some fmt) = Ok cx -> cx_kind cx = 1%N -> cx_fmt cx = Some fmt).
 Proof.
   split; [reflexivity|]. intros b f fmt cx. unfold write_cat.
   destruct (forest_depth f) as [D|]; [|discriminate].
